@@ -4,6 +4,7 @@ import (
 	"bytes"
 	"encoding/json"
 	"fmt"
+	"math"
 	"strconv"
 	"strings"
 	"time"
@@ -87,7 +88,12 @@ func JSONWriteIntProp(b *[]byte, n string, d int64) (notEmpty bool) {
 }
 
 func JSONWriteFloatProp(b *[]byte, n string, f float64) (notEmpty bool) {
-	return JSONWriteProp(b, n, []byte(fmt.Sprintf("%f", f)))
+	if math.IsNaN(f) || math.IsInf(f, 0) {
+		// JSON has no representation for these
+		return false
+	}
+	// the shortest decimal form that reads back as the same float64, without an exponent
+	return JSONWriteProp(b, n, strconv.AppendFloat(nil, f, 'f', -1, 64))
 }
 
 func JSONWriteTimeProp(b *[]byte, n string, t time.Time) (notEmpty bool) {
